@@ -640,6 +640,12 @@ def late_error_cases():
         [b'sort', b'll', b'store', b'k', b'bogus'], [b'sort', b'll', b'limit', b'0', b'store', b'k'], [b'sort', b'll', b'store'], [b'sort', b'lbad', b'store', b'k'], [b'sort', b'll', b'by', b'w_*', b'store', b'k', b'limit', b'x', b'1'],
         [b'rename', b'nokey', b'k'], [b'renamenx', b'nokey', b'k'], [b'restore', b'k', b'-1', b'x'], [b'restore', b'k', b'0', b'garbage', b'replace'], [b'restore', b'k', b'abc', b'x', b'replace'],
         [b'move', b'k', b'16'], [b'move', b'k', b'x'], [b'swapdb', b'0', b'16'], [b'select', b'16'], [b'append', b'k'], [b'getset', b'k'], [b'lpush', b'k'], [b'sadd', b'k'],
+        # a malformed number together with a key of another type: the argument error is reported (arguments are converted before keys are looked at)
+        [b'incrby', b'k', b'abc'], [b'decrby', b'k', b'1.5'], [b'setrange', b'k', b'x', b'v'], [b'setbit', b'k', b'-1', b'1'], [b'getbit', b'k', b'nope'], [b'getrange', b'k', b'a', b'1'],
+        [b'lindex', b'k', b'x'], [b'lrange', b'k', b'0', b'x'], [b'lrem', b'k', b'x', b'a'], [b'ltrim', b'k', b'x', b'1'], [b'hincrby', b'k', b'f', b'1.5'], [b'zrange', b'k', b'0', b'x'],
+        [b'zrangebyscore', b'k', b'a', b'1'], [b'zrangebylex', b'k', b'a', b'+'], [b'zcount', b'k', b'1', b'x'], [b'zremrangebyrank', b'k', b'x', b'1'], [b'zincrby', b'k', b'abc', b'm'],
+        [b'expire', b'k', b'1.5'], [b'pexpireat', b'k', b''], [b'psetex', b'k', b'x', b'v'], [b'srandmember', b'k', b'x'], [b'spop', b'k', b'x'], [b'sscan', b'k', b'x'], [b'hscan', b'k', b'-1'],
+        [b'bitcount', b'k', b'a', b'b'], [b'restore', b'k', b'x', b'p'],
     ]
     for tname, mk in sorted(TYPES.items()) + [('missing', []), ('empty-string', [[b'set', b'k', b'']]), ('string+ttl', [[b'set', b'k', b'v', b'ex', b'100']])]:
         pre = mk + [[b'zadd', b'zz', b'1', b'm'], [b'sadd', b'ss', b'm'], [b'rpush', b'll', b'2', b'1'], [b'rpush', b'lbad', b'1', b'x'], [b'set', b'str', b'v']]
